@@ -16,7 +16,7 @@ from pyvc.contracts import Args, Case, Contract, HeapView, LoopSpec
 from pyvc.core import ANY, BOOL, BYTES, FUNCT, INT, MAP, NONE, NONEV, OPT, REF, SEQ, STR, SV, TUP, ExcV, U, Unsupported, mk_bool, mk_int, mk_str, mk_tuple
 from pyvc.symexec import ExternD, FuncD, ModuleD
 
-from .base import RSYNC, RSYNCR, slen
+from .base import GB as GB_, RSYNC, RSYNCR, slen
 
 FSR = z3.IntVal(1)
 FSV = SV(REF("FS"), FSR)
@@ -718,4 +718,325 @@ def declare_serve_rsync_body(w):
         M = items(L.h, L.modifiedfiles)
         i, j = z3.Int("qd1"), z3.Int("qd2")
         return [z3.ForAll([i, j], z3.Implies(z3.And(i >= 0, i < j, j < slen(M)), mf_path(M[i]) != mf_path(M[j])), patterns=[z3.MultiPattern(M[i], M[j])])]
+    return w
+
+
+# ---------------------------------------------------------------------------------------------------------------------------------
+# sender: RSync._send_directory_structure / _send_directory / _send_link_structure / _send_item / _broadcast / _send_link
+# ---------------------------------------------------------------------------------------------------------------------------------
+fm = z3.Function("fm", z3.BoolSort(), z3.IntSort(), z3.IntSort(), z3.IntSort(), U)          # file message (mode is None, mode, mtime, size)
+dm = z3.Function("dm", z3.IntSort(), z3.SeqSort(z3.StringSort()), U)                        # directory message [mode, *names]
+lk = z3.Function("lk", z3.StringSort(), z3.StringSort(), z3.StringSort(), U)                # link message (type, basename, linkpoint)
+m_names = z3.Function("m_names", U, z3.SeqSort(z3.StringSort()))
+MSG_NONE = z3.Const("MSG_NONE", U)
+RP = z3.Function("relpath", z3.StringSort(), z3.StringSort(), z3.StringSort(), z3.StringSort())   # os.path.relpath(path, start) evaluated in working directory cwd
+
+
+def ax_fm(t):
+    return [m_tag(t) == T_FILE, m_mode_none(t) == t.arg(0), m_mode(t) == t.arg(1), m_mtime(t) == t.arg(2), m_size(t) == t.arg(3)]
+
+
+def ax_dm(t):
+    return [m_tag(t) == T_LIST, m_mode(t) == t.arg(0), m_names(t) == t.arg(1)]
+
+
+def ax_lk(t):
+    return [m_tag(t) == T_LINK, m_ltype(t) == t.arg(0), m_lrel(t) == t.arg(1), m_lpoint(t) == t.arg(2)]
+
+
+def ax_none(t):
+    return [m_tag(t) == T_NONE, m_data_none(t)]      # Python's None on the wire: the link placeholder and the "no content" answer are the same value
+
+
+ax_fm.names, ax_dm.names, ax_lk.names, ax_none.names = ["fm"], ["dm"], ["lk"], ["MSG_NONE"]
+
+
+def isabs(p):
+    return z3.PrefixOf(SLASH, p)
+
+
+def normalised(p):
+    sv = z3.StringVal
+    return z3.And(z3.Not(z3.Contains(p, sv("//"))), z3.Not(z3.Contains(p, sv("/./"))), z3.Not(z3.Contains(p, sv("/../"))),
+                  z3.Not(z3.SuffixOf(sv("/"), p)), z3.Not(z3.SuffixOf(sv("/."), p)), z3.Not(z3.SuffixOf(sv("/.."), p)))
+
+
+def ax_relpath(t):
+    """os.path.relpath on POSIX for normalised paths (no '.', '..' or empty segments, no trailing '/'): assumed characterisation"""
+    p, start, cwd = t.arg(0), t.arg(1), t.arg(2)
+    inside = z3.PrefixOf(z3.Concat(start, SLASH), p)
+    return [z3.Implies(z3.And(isabs(p), isabs(start), inside), t == z3.SubSeq(p, z3.Length(start) + 1, z3.Length(p) - z3.Length(start) - 1)),
+            z3.Implies(z3.And(isabs(p), isabs(start), p == start), t == z3.StringVal(".")),
+            z3.Implies(z3.And(isabs(p), isabs(start), z3.Not(inside), p != start), z3.Or(t == z3.StringVal(".."), z3.PrefixOf(z3.StringVal("../"), t))),
+            z3.Implies(z3.And(z3.Not(isabs(p)), isabs(cwd), z3.Length(p) > 0), t == RP(z3.Concat(cwd, SLASH, p), start, cwd))]     # a relative path is taken from the working directory
+
+
+ax_relpath.names = ["relpath"]
+
+
+def strseq(sv):
+    """a list local that the code starts as `[]`: typed by its first append, until then the empty list of strings"""
+    if sv.ty == SEQ(STR):
+        return sv.v
+    if z3.is_app(sv.v) and sv.v.decl().kind() == z3.Z3_OP_SEQ_EMPTY:
+        return z3.Empty(z3.SeqSort(z3.StringSort()))
+    raise Unsupported("list of " + repr(sv.ty) + " where a list of str is expected")
+
+
+def declare_sender(w):
+    from pyvc import extract
+
+    declare_fs(w)
+    s = w.schema
+    w.axiom_providers.extend([ax_fm, ax_dm, ax_lk, ax_relpath, ax_none])
+    s.declare("FS", "cwd", STR, ghost=True)                     # the caller's working directory
+    s.declare("RSync", "_sourcedir", STR)
+    s.declare("RSync", "_links", SEQ(ANY))                      # entries lk(type, basename, linkpoint)
+    s.declare("RSync", "_verbose", BOOL)
+    s.declare("RSync", "$out", SEQ(ANY), ghost=True)            # what was broadcast to every target channel, in order
+    s.declare("RSync", "$reported", SEQ(STR), ghost=True)       # _report_send_file calls (relative paths)
+    s.declare("Channel", "$sent", SEQ(ANY), ghost=True)
+    s.declare("Channel", "gateway", REF("BaseGateway"))
+    out = lambda h, r: h("RSync", r, "$out")
+    d2u = z3.Function("d2u", z3.BoolSort(), z3.StringSort(), U)   # a data answer: (is None, bytes)
+
+    def ax_d2u(t):
+        return [m_tag(t) == T_DATA, m_data_none(t) == t.arg(0), m_data(t) == t.arg(1)]
+
+    ax_d2u.names = ["d2u"]
+    w.axiom_providers.append(ax_d2u)
+
+    def co(val, ty):
+        if ty != ANY:
+            return None
+        k = val.ty.kind
+        if k == "none":
+            return SV(ANY, MSG_NONE)
+        if k == "tuple" and len(val.v) == 3 and all(x.ty.kind == "str" for x in val.v):
+            return SV(ANY, lk(*[x.v for x in val.v]))
+        if k == "tuple" and len(val.v) == 3:
+            mo = val.v[0]
+            if mo.ty.kind == "none":
+                mo = core.mk_opt_none(INT)
+            mo = core.coerce(mo, OPT(INT))
+            return SV(ANY, fm(mo.v[0], mo.v[1].v, core.coerce(val.v[1], INT).v, core.coerce(val.v[2], INT).v))
+        if k == "opt" and val.ty.inner == BYTES:
+            return SV(ANY, d2u(val.v[0], val.v[1].v))
+        if k == "bytes":
+            return SV(ANY, d2u(z3.BoolVal(False), val.v))
+        return None
+
+    co.__name__ = "co_rsync"
+    core.COERCE_HOOKS[:] = [h for h in core.COERCE_HOOKS if getattr(h, "__name__", "") != "co_rsync"] + [co]
+
+    def starred_list(ex, node, st, sink):
+        # [mode, *names]: the directory message
+        if len(node.elts) == 2 and isinstance(node.elts[1], ast.Starred):
+            for s1, mode in ex.ev(node.elts[0], st, sink):
+                for s2, names in ex.ev(node.elts[1].value, s1, sink):
+                    nv = names.v if names.ty == SEQ(STR) else z3.Empty(z3.SeqSort(z3.StringSort())) if (z3.is_app(names.v) and names.v.decl().kind() == z3.Z3_OP_SEQ_EMPTY) else None
+                    if nv is None:
+                        raise Unsupported("[mode, *names] with names of " + repr(names.ty))
+                    yield s2, SV(ANY, dm(core.coerce(mode, INT).v, nv))
+            return
+        raise Unsupported("starred list display")
+
+    w.call_hooks[("display", "starred_list")] = starred_list
+    w.externals.update({"os.curdir": mk_str("."), "os.pardir": mk_str(".."), "os.sep": mk_str("/"), "os.path.__name__": mk_str("posixpath")})
+
+    def os_readlink(ex, args, kwargs, st, sink, node):
+        p = core.coerce(args[0], STR).v
+        for s2, ok in ex.fork(st, fsget(st.heap, "kind", p) == K_LINK):
+            if ok:
+                yield s2, SV(STR, fsget(s2.heap, "target", p))
+            else:
+                ex.raise_(s2, sink, "OSError", origin="os.readlink: not a link")
+
+    def os_relpath(ex, args, kwargs, st, sink, node):
+        p, start = (core.coerce(a, STR).v for a in args)
+        cwd = st.heap.get(FSV, "cwd").v
+        yield st, SV(STR, RP(p, start, cwd))      # never ValueError on POSIX (that is for different drives)
+
+    def os_listdir(ex, args, kwargs, st, sink, node):
+        p = core.coerce(args[0], STR).v
+        for s2, ok in ex.fork(st, fsget(st.heap, "kind", p) == K_DIR):
+            if not ok:
+                ex.raise_(s2, sink, "OSError", origin="os.listdir: not a directory")
+                continue
+            names = z3.Const(core.fresh_name("listdir"), z3.SeqSort(z3.StringSort()))
+            i, j = z3.Int(core.fresh_name("li")), z3.Int(core.fresh_name("lj"))
+            # every name is an existing entry of p, names are distinct, non-empty and contain no '/'
+            s2.assume(z3.ForAll([i], z3.Implies(z3.And(i >= 0, i < z3.Length(names)),
+                                                z3.And(fsget(s2.heap, "kind", z3.Concat(p, SLASH, names[i])) != K_ABSENT, z3.Length(names[i]) > 0, z3.Not(z3.Contains(names[i], SLASH)))), patterns=[names[i]]),
+                      z3.ForAll([i, j], z3.Implies(z3.And(i >= 0, i < j, j < z3.Length(names)), names[i] != names[j]), patterns=[z3.MultiPattern(names[i], names[j])]))
+            yield s2, SV(SEQ(STR), names)
+
+    def os_isabs(ex, args, kwargs, st, sink, node):
+        yield st, mk_bool(isabs(core.coerce(args[0], STR).v))
+
+    w.externals.update({"os.readlink": os_readlink, "os.path.relpath": os_relpath, "os.listdir": os_listdir, "os.path.isabs": os_isabs})
+
+    # ---- small methods ----------------------------------------------------------------------------------------------------------------
+    w.add(Contract(f"{RSYNC}:RSync._broadcast", {"self": REF("RSync"), "msg": ANY}, modifies=lambda a, h: [("RSync", a.self, "$out")],
+                   cases=[Case("ok", post=lambda a, h, h2, r: [out(h2, a.self) == z3.Concat(out(h, a.self), z3.Unit(a.msg))]), Case("closed", "raise", "OSError")], trusted=True,
+                   note="sends msg on every target channel, in the order of the calls (C02)"))
+    w.add(Contract(f"{RSYNC}:RSync._send_link", {"self": REF("RSync"), "linktype": STR, "basename": STR, "linkpoint": STR}, modifies=lambda a, h: [("RSync", a.self, "_links")],
+                   cases=[Case("ok", post=lambda a, h, h2, r: [h2("RSync", a.self, "_links") == z3.Concat(h("RSync", a.self, "_links"), z3.Unit(lk(a.linktype, a.basename, a.linkpoint)))])], props=["C17"]))
+    w.add(Contract(f"{RSYNC}:RSync.filter", {"self": REF("RSync"), "path": STR}, cases=[Case("ok", restype=BOOL)], trusted=True, note="user hook: any answer"))
+
+    # ---- _send_link_structure ------------------------------------------------------------------------------------------------------------
+    def sls_post(a, h, h2, r):
+        sd = h("RSync", a.self, "_sourcedir")
+        tgt = fsget(h, "target", a.path)
+        base = z3.SubSeq(a.path, slen(sd) + 1, slen(a.path) - slen(sd) - 1)
+        inside = z3.And(isabs(tgt), z3.PrefixOf(z3.Concat(sd, SLASH), tgt))
+        L, L2 = h("RSync", a.self, "_links"), h2("RSync", a.self, "_links")
+        # an absolute link into the source tree is re-based; every other link - relative ones in particular - is sent as it is:
+        # the classification is a function of (linkpoint, sourcedir) only, never of the working directory
+        want = z3.If(inside, lk(z3.StringVal("linkbase"), base, z3.SubSeq(tgt, slen(sd) + 1, slen(tgt) - slen(sd) - 1)), lk(z3.StringVal("link"), base, tgt))
+        return [L2 == z3.Concat(L, z3.Unit(want)), out(h2, a.self) == z3.Concat(out(h, a.self), z3.Unit(MSG_NONE))]
+
+    w.add(Contract(f"{RSYNC}:RSync._send_link_structure", {"self": REF("RSync"), "path": STR},
+                   requires=lambda a, h: [("path-below-sourcedir", z3.PrefixOf(z3.Concat(h("RSync", a.self, "_sourcedir"), SLASH), a.path)),
+                                          ("absolute-normalised-sourcedir-and-cwd", z3.And(isabs(h("RSync", a.self, "_sourcedir")), isabs(h("FS", FSR, "cwd")))),
+                                          ("link-target-not-empty", slen(fsget(h, "target", a.path)) > 0),
+                                          ("link-target-and-sourcedir-normalised", z3.And(normalised(fsget(h, "target", a.path)), normalised(h("RSync", a.self, "_sourcedir"))))],
+                   modifies=lambda a, h: [("RSync", a.self, "_links"), ("RSync", a.self, "$out")],
+                   cases=[Case("ok", post=sls_post), Case("not-a-link", "raise", "OSError", when=lambda a, h: fsget(h, "kind", a.path) != K_LINK), Case("closed", "raise", "OSError")], props=["C17"]))
+
+    # ---- _send_directory_structure: what is broadcast for one path --------------------------------------------------------------------------------
+    SDS, SD = f"{RSYNC}:RSync._send_directory_structure", f"{RSYNC}:RSync._send_directory"
+
+    def st_mode(h, p):
+        return fmt_of(fsget(h, "kind", p)) * 4096 + fsget(h, "perm", p)
+
+    def sds_post(a, h, h2, r):
+        k = fsget(h, "kind", a.path)
+        O, O2 = out(h, a.self), out(h2, a.self)
+        first = O2[slen(O)]
+        return [z3.PrefixOf(O, O2), slen(O2) > slen(O),
+                z3.Implies(k == K_ABSENT, z3.And(slen(O2) == slen(O) + 1, m_tag(first) == T_FILE, m_mode_none(first), m_mtime(first) == 0, m_size(first) == 0)),   # vanished: (None, 0, 0)
+                z3.Implies(k == K_FILE, z3.And(slen(O2) == slen(O) + 1, m_tag(first) == T_FILE, z3.Not(m_mode_none(first)), m_mode(first) == st_mode(h, a.path),
+                                               m_mtime(first) == fsget(h, "mtime", a.path), m_size(first) == slen(fsget(h, "content", a.path)))),   # file: its mode, mtime and size
+                z3.Implies(k == K_DIR, z3.And(m_tag(first) == T_LIST, m_mode(first) == st_mode(h, a.path))),                    # directory: the list message first
+                z3.Implies(k == K_LINK, z3.And(O2 == z3.Concat(O, z3.Unit(MSG_NONE)), slen(h2("RSync", a.self, "_links")) == slen(h("RSync", a.self, "_links")) + 1)),
+                z3.PrefixOf(h("RSync", a.self, "_links"), h2("RSync", a.self, "_links"))]
+
+    sender_req = lambda a, h: [("path-below-sourcedir", z3.PrefixOf(z3.Concat(h("RSync", a.self, "_sourcedir"), SLASH), a.path)),
+                               ("absolute-normalised-sourcedir-and-cwd", z3.And(isabs(h("RSync", a.self, "_sourcedir")), isabs(h("FS", FSR, "cwd")), normalised(h("RSync", a.self, "_sourcedir")))),
+                               ("link-targets-normalised", links_normalised(h))]
+
+    def links_normalised(h):
+        q = z3.String("q_ln")
+        return z3.ForAll([q], z3.Implies(fsget(h, "kind", q) == K_LINK, z3.And(normalised(fsget(h, "target", q)), slen(fsget(h, "target", q)) > 0)), patterns=[fsget(h, "target", q)])
+
+    w.contracts[f"{RSYNC}:RSync._send_link_structure"].requires = lambda a, h: sender_req(a, h)
+    SMOD = lambda a, h: [("RSync", a.self, "_links"), ("RSync", a.self, "$out")]
+    w.add(Contract(SDS, {"self": REF("RSync"), "path": STR}, requires=sender_req, modifies=SMOD,
+                   cases=[Case("ok", post=sds_post), Case("closed", "raise", "OSError"), Case("special-file", "raise", "ValueError")], props=["C17"], allocates=True))
+
+    def sd_post(a, h, h2, r):
+        O, O2 = out(h, a.self), out(h2, a.self)
+        first = O2[slen(O)]
+        names = m_names(first)
+        i = z3.Int("SDI")
+        return [z3.PrefixOf(O, O2), slen(O2) > slen(O), m_tag(first) == T_LIST, m_mode(first) == st_mode(h, a.path),
+                # every listed name is an entry of the directory (those the filter let through, in listdir order)
+                z3.Implies(z3.And(i >= 0, i < slen(names)), fsget(h, "kind", z3.Concat(a.path, SLASH, names[i])) != K_ABSENT),
+                z3.PrefixOf(h("RSync", a.self, "_links"), h2("RSync", a.self, "_links"))]
+
+    w.add(Contract(SD, {"self": REF("RSync"), "path": STR}, requires=lambda a, h: sender_req(a, h) + [("a-directory", fsget(h, "kind", a.path) == K_DIR)], modifies=SMOD,
+                   cases=[Case("ok", post=sd_post), Case("closed-or-vanished", "raise", "OSError"), Case("special-file", "raise", "ValueError")], props=["C17"], allocates=True))
+
+    def sd_loop0(L):
+        h = L.h
+        p = L.inp("path")
+        names, subs = strseq(L.sv("names")), strseq(L.sv("subpaths"))
+        i = z3.Int("SDI")
+        return [("subpaths-are-the-names-joined", z3.And(slen(names) == slen(subs), z3.Implies(z3.And(i >= 0, i < slen(names)), z3.And(subs[i] == z3.Concat(p, SLASH, names[i]),
+                                                                                                                                     fsget(h, "kind", subs[i]) != K_ABSENT)))),
+                ("nothing-sent-yet", z3.And(out(h, L.self) == out(L.old, L.self), h("RSync", L.self, "_links") == L.old("RSync", L.self, "_links"))),
+                ("params", z3.And(L.self == L.inp("self"), L.path == p))]
+
+    def sd_loop0_all(L):
+        names, subs = strseq(L.sv("names")), strseq(L.sv("subpaths"))
+        p = L.inp("path")
+        i = z3.Int("q_sd")
+        return [z3.ForAll([i], z3.Implies(z3.And(i >= 0, i < slen(names)), z3.And(subs[i] == z3.Concat(p, SLASH, names[i]), fsget(L.h, "kind", subs[i]) != K_ABSENT)), patterns=[subs[i], names[i]])]
+
+    l0 = LoopSpec(SD, 0, invariant=sd_loop0, props=["C17"])
+    l0.invariant_assume = lambda L: [f for _, f in sd_loop0(L)] + sd_loop0_all(L)
+    w.add_loop(l0)
+
+    def sd_loop1(L):
+        h, pre = L.h, L.pre
+        O0 = out(L.old, L.self)
+        return [("list-message-stays-first", z3.And(z3.PrefixOf(out(pre, L.self), out(h, L.self)), slen(out(pre, L.self)) == slen(O0) + 1, z3.PrefixOf(O0, out(pre, L.self)))),
+                ("links-only-grow", z3.PrefixOf(L.old("RSync", L.self, "_links"), h("RSync", L.self, "_links"))),
+                ("params", z3.And(L.self == L.inp("self"), L.path == L.inp("path")))]
+
+    l1 = LoopSpec(SD, 1, invariant=sd_loop1, havoc_cells=lambda L: [("RSync", L.inp("self"), "_links"), ("RSync", L.inp("self"), "$out")], props=["C17"])
+    l1.invariant_assume = lambda L: [f for _, f in sd_loop1(L)] + sd_loop0_all(L)
+    w.add_loop(l1)
+
+    # ---- _send_item: the answer to a ("send", (components, checksum)) request -------------------------------------------------------------------------
+    joinrel = z3.Function("joinrel", z3.SeqSort(z3.StringSort()), z3.StringSort())     # "/".join(components)
+    s.declare("RSync", "_paths", MAP(STR, INT))
+    s.declare("RSync", "_to_send", MAP(REF("Channel"), SEQ(STR)))
+
+    def star_call(ex, node, st, sink):
+        # os.path.join(self._sourcedir, *components)
+        if ast.unparse(node.func) == "os.path.join" and len(node.args) == 2 and isinstance(node.args[1], ast.Starred):
+            for s1, base in ex.ev(node.args[0], st, sink):
+                for s2, comps in ex.ev(node.args[1].value, s1, sink):
+                    yield s2, SV(STR, joinall(core.coerce(base, STR).v, core.coerce(comps, SEQ(STR)).v))
+            return
+        raise Unsupported(f"*args call at line {node.lineno}")
+
+    w.call_hooks[("call", "star")] = star_call
+
+    def str_join(ex, recv, args, st, sink):
+        sep = z3.simplify(recv.v)
+        if not (z3.is_string_value(sep) and sep.as_string() == "/"):
+            raise Unsupported("str.join with a separator other than '/'")
+        yield st, SV(STR, joinrel(core.coerce(args[0], SEQ(STR)).v))
+
+    w.externals["bytes.join"] = str_join
+    w.add(Contract(f"{RSYNC}:RSync._report_send_file", {"self": REF("RSync"), "gateway": REF("BaseGateway"), "modified_rel_path": STR}, modifies=lambda a, h: [("RSync", a.self, "$reported")],
+                   cases=[Case("ok", post=lambda a, h, h2, r: [h2("RSync", a.self, "$reported") == z3.Concat(h("RSync", a.self, "$reported"), z3.Unit(a.modified_rel_path))])], trusted=True,
+                   note="prints one line when verbose; recorded as the observation point of 'content was transferred'"))
+    w.add(Contract(f"{GB_}:Channel.send", {"self": REF("Channel"), "item": ANY}, modifies=lambda a, h: [("Channel", a.self, "$sent")],
+                   cases=[Case("ok", post=lambda a, h, h2, r: [h2("Channel", a.self, "$sent") == z3.Concat(h("Channel", a.self, "$sent"), z3.Unit(a.item))]), Case("closed", "raise", "OSError")],
+                   trusted=True, note="C01/C02"))
+
+    def si_post(a, h, h2, r):
+        sd = h("RSync", a.self, "_sourcedir")
+        p = joinall(sd, a.modified_rel_path_components)
+        rel = joinrel(a.modified_rel_path_components)
+        content = fsget(h, "content", p)
+        S, S2 = h("Channel", a.channel, "$sent"), h2("Channel", a.channel, "$sent")
+        u = S2[slen(S)]
+        ck = a.sv("checksum")
+        same = z3.And(z3.Not(ck.v[0]), ck.v[1].v == md5(content))
+        R, R2 = h("RSync", a.self, "$reported"), h2("RSync", a.self, "$reported")
+        return [slen(S2) == slen(S) + 1,                                                                     # exactly one answer
+                z3.Or(m_data_none(u), z3.And(fsget(h, "kind", p) == K_FILE, m_data(u) == content)),          # content, when sent, is the source file's
+                z3.Implies(z3.And(fsget(h, "kind", p) == K_FILE, same), m_data_none(u)),                    # equal checksum: no content is transferred
+                z3.If(m_data_none(u), R2 == R, R2 == z3.Concat(R, z3.Unit(rel)))]                            # reported exactly when content is sent
+
+    w.add(Contract(f"{RSYNC}:RSync._send_item", {"self": REF("RSync"), "channel": REF("Channel"), "modified_rel_path_components": SEQ(STR), "checksum": OPT(BYTES)},
+                   requires=lambda a, h: [("channel", a.channel != 0)],
+                   modifies=lambda a, h: [("RSync", a.self, "_paths"), ("RSync", a.self, "_to_send"), ("RSync", a.self, "$reported"), ("Channel", a.channel, "$sent")],
+                   cases=[Case("ok", post=si_post), Case("closed", "raise", "OSError")], props=["C17"], allocates=True))
+
+    # ---- _process_link: all link messages, then the completion marker 42 ------------------------------------------------------------------------------
+    PL = f"{RSYNC}:RSync._process_link"
+    sent = lambda h, c: h("Channel", c, "$sent")
+
+    w.add(Contract(PL, {"self": REF("RSync"), "channel": REF("Channel")}, requires=lambda a, h: [("channel", a.channel != 0)], modifies=lambda a, h: [("Channel", a.channel, "$sent")],
+                   cases=[Case("ok", post=lambda a, h, h2, r: [sent(h2, a.channel) == z3.Concat(sent(h, a.channel), h("RSync", a.self, "_links"), z3.Unit(core.int2u(z3.IntVal(42))))]),
+                          Case("closed", "raise", "OSError")], props=["C17"]))
+    w.add_loop(LoopSpec(PL, 0, invariant=lambda L: [("links-sent-so-far-in-order", sent(L.h, L.inp("channel")) == z3.Concat(sent(L.old, L.inp("channel")), z3.SubSeq(L.old("RSync", L.inp("self"), "_links"), 0, L.k))),
+                                                     ("params", z3.And(L.channel == L.inp("channel"), L.self == L.inp("self")))],
+                        havoc_cells=lambda L: [("Channel", L.inp("channel"), "$sent")], props=["C17"]))
     return w
